@@ -557,6 +557,11 @@ pub fn run(r: &Run) {
     let q = r.tier == Tier::Quick;
     r.prop("vrp-set-vs-route", r.tier.pick(300_000, 4_000_000), || arb_case(8, false), check);
     r.prop("vrp-history", r.tier.pick(150_000, 2_000_000), || arb_case(14, true), check);
+    // the VRP set validation runs on is what the RTR client installed: the same scripted caches as C13
+    // (full responses incl. empty ones after a Cache Reset, incremental rounds, session loss), judged
+    // by the same fold, so that glue that leaves stale VRPs in the table is visible here too
+    r.assume("rtr-fed-vrps: shared with C13 (cache scripts through RpkiClient::serve_inner); validation results follow from the VRP set, which is what is compared");
+    r.prop("rtr-fed-vrps", r.tier.pick(6_000, 120_000), crate::props::c13::arb_case, crate::props::c13::check);
     // bounded-exhaustive windows: on a byte boundary, across one, deep in the address
     let windows: Vec<(bool, u8, u8, bool)> = if q {
         vec![(false, 0, 5, false), (false, 6, 5, false), (false, 21, 5, false), (true, 61, 4, false), (true, 123, 5, false), (false, 14, 2, true), (false, 0, 2, true), (true, 63, 2, true)]
@@ -577,7 +582,10 @@ pub fn run(r: &Run) {
     }
 }
 
-pub fn replay(_sub: &str, case: &Value) -> Result<CheckResult, String> {
+pub fn replay(sub: &str, case: &Value) -> Result<CheckResult, String> {
+    if sub == "rtr-fed-vrps" {
+        return Ok(crate::props::c13::check(&decode_case(case)?));
+    }
     let c: Case = decode_case(case)?;
     Ok(check(&c))
 }
